@@ -397,6 +397,16 @@ func cliCheck(res *sched.Result, w *cliWorld) (finds []explore.Finding, outcome 
 								break
 							}
 						}
+						// ... or the tick was announced before this Start was issued and ran after it: the thread that
+						// completed the transaction (after the fallback call) is a collector's
+						if hp := inst.HandlerAt[0]; where == "other" {
+							for q := 0; q < hp; q++ {
+								if w.log[q].Kind == "tick-begin" && w.log[q].Thr == w.log[hp].Thr {
+									where = "during-retransmission"
+									break
+								}
+							}
+						}
 					}
 					add("C12/response-went-to-fallback/"+where, "a response with the id of transaction #%d went to the fallback handler (log position %d) although the request was on the wire before the datagram was delivered (%d) and the transaction was completed only later (%d); %s", idx, f, dpos, inst.HandlerAt[0], w.logString())
 				}
